@@ -236,8 +236,8 @@ def run(rep, ctx):
                        "the decided clauses are necessary, not sufficient, for the statement"]
     rep.rule("R03.1", "position matching is species-strict: an atom of another element within the tolerance is a substitution, never a match (shared with C16)")
     with rep.guard("R03.1"):
-        c16.r16_1(rep, M, "R03.1")
-        c16.r16_2(rep, M, "R03.1")
+        c16.r16_1(rep, M, "R03.1", region=True)
+        c16.r16_2(rep, M, "R03.1", region=True)
     rep.rule("R03.2", "members of a region are its matched basis atoms only; a new cluster is the seed plus these members")
     with rep.guard("R03.2"):
         r03_2(rep, M, "R03.2")
@@ -260,10 +260,10 @@ def run(rep, ctx):
         c13.r13_1(rep, M, "R03.7")
         c13.r13_2(rep, M, "R03.7")
         c13.r13_4(rep, M, "R03.7")
-    rep.rule("R03.8", "no nondeterminism source is reachable; the generator is built from `seed` (any seed gives the same partition only if nothing else varies)")
+    rep.rule("R03.8", "get_clusters derives everything it uses from this call's arguments: no finder, distance table or cell list is carried over from a "
+                      "previous call (the statement holds for any seed, i.e. for every random stream, so the generator itself is exempt; shared with C01)")
     with rep.guard("R03.8"):
-        c01.r01_2(rep, M, "R03.8")
-        c01.call_local_state(rep, M, "R03.8", GC)
+        c01.call_local_state(rep, M, "R03.8", GC, generators_exempt=True)
     rep.rule("R03.9", "the search for the atoms inside a candidate cell covers every periodic image the cell reaches into (shared with C04)")
     with rep.guard("R03.9"):
         from . import c04 as _c04w
